@@ -20,9 +20,10 @@ from pycoin.encoding.bytes32 import to_bytes_32
 PROP = "C04"
 DRIVER = "C04"
 INTERACTIVE = True
-RULE = ("correspondence: one driver line per (function, transaction, script, input index, LIST of hash types); each line "
-        "compares one result per hash type (digest as integer, or exception class); distinct = distinct line; "
-        "non-trivial = at least one hash type yields a digest/bytes rather than an exception")
+RULE = ("correspondence: one driver line per (function, transaction class, transaction, script, input index, LIST of hash "
+        "types: ~33 per line in quick, all 256 + one wide value in thorough, 64 per line); each line compares one result per "
+        "hash type (digest as integer = hashlib applied to the model's preimage, or exception class); distinct = distinct "
+        "line; non-trivial = at least one hash type yields a digest/bytes rather than an exception")
 PARTIAL = ["'computing a hash never modifies the transaction': a pure model cannot alias; checked directly on the "
            "implementation (as_bin(include_unspents) + object identities before/after every entry point), not a theorem",
            "script codes holding an undecodable instruction: theorems exclude them (consensus-unobservable); known finding",
@@ -404,8 +405,8 @@ def boundary_scenarios():
     res = []
     h = bytes(range(32))
     base = {"v": 2, "lock": 7, "ins": [(h, 1, b"\x51", 0xFFFFFFFE)], "outs": [(5000, b"\x51")], "uns": [(7000, b"\x51")]}
-    for total in (252, 253, 254, 255, 256, 65535, 65536, 65537, 65538):
-        for nsep in (0, 1, 2):
+    for total in (252, 253, 254, 255, 256, 65535, 65536, 65537):
+        for nsep in ((0, 1, 2) if total < 1000 else (1,)):
             body = total - nsep - 1
             push = r_push(b"\xab" * (body - (1 if body <= 76 else 2 if body <= 257 else 3)))
             script = b"\xab" * nsep + push
@@ -414,7 +415,7 @@ def boundary_scenarios():
     many_in = dict(base, ins=[(h, k, b"", k) for k in range(253)], uns=[(k + 1, b"\x51") for k in range(253)])
     res.append((many_in, b"\xab\xac", 252))
     res.append((many_in, b"\xac", 0))
-    for n in (252, 253, 300):
+    for n in (252, 253):
         many_out = dict(base, outs=[(k, bytes([0x51 + (k & 7)])) for k in range(n)],
                         ins=[(h, k, b"", k) for k in range(n)], uns=[(k + 1, b"\x51") for k in range(n)])
         res.append((many_out, b"\xac", n - 1))
@@ -461,7 +462,7 @@ def nontrivial(line, r):
 
 
 def model_cases(rng, tier):
-    n_scen = 220 if tier == "quick" else 600
+    n_scen = 220 if tier == "quick" else 1200
     for k in range(n_scen):
         t, script, idx, sigs = gen_scenario(rng, wf=(rng.random() < 0.7))
         toks = tx_tokens(t)
@@ -480,8 +481,9 @@ def model_cases(rng, tier):
                            (lambda coin=coin, t=t, script=script, idx=idx, h2=h2: impl_list(coin, t, "P", script, idx, h2)))
     for t, script, idx in boundary_scenarios():
         toks = tx_tokens(t)
-        hts = MEANINGFUL + [0]
-        for coin in ("BTC", "BTG", "GRS"):
+        big = len(script) > 1000 or len(t["ins"]) > 50
+        hts = [1, 2, 3, 0x81, 0x83, 0x41, 0xC2] if big else MEANINGFUL + [0]
+        for coin in (("BTC", "GRS") if big else ("BTC", "BTG", "GRS")):
             for entry, fn in (("L", "sighash"), ("S", "sighash_segwit")):
                 yield Case("%s %s %s %s i%x %s" % (fn, coin, toks, arg(script), idx, hts_arg(hts)),
                            (lambda coin=coin, t=t, entry=entry, script=script, idx=idx, hts=hts:
@@ -816,7 +818,7 @@ def _prop_chunk(rng, tier, use_driver, n_scen, n_fad, extras):
         scen += [(t, script, idx, []) for t, script, idx in boundary_scenarios()]
     for t, script, idx, sigs in scen:
         toks = tx_tokens(t)
-        hts = hash_types(rng, tier)
+        hts = hash_types(rng, tier) if (len(script) < 1000 and len(t["ins"]) < 50) else [1, 2, 3, 0x81, 0x83, 0x41, 0xC2]
         jin = {"tx": tx_json(t), "script": script.hex(), "idx": idx, "hts": hts, "sigs": [s.hex() for s in sigs]}
         amount = t["uns"][idx][0]
         k_leg = spec.ask("spec_legacy %s %s i%x %s" % (toks, arg(script), idx, hts_arg(hts)),
